@@ -164,3 +164,76 @@ pub fn f11_directed() -> Vec<SemCase> {
 pub fn f11_ref() -> Vec<SemCase> {
     f11_directed().into_iter().filter(|c| !c.tags.contains(&"asm")).collect()
 }
+
+/// F0.pinned — the C programs of the repository's own generator tests (extracted by
+/// tools/extract_pinned.py into data/pinned.txt), re-used as an executed corpus. Only the programs
+/// the harness's own C front end can read become cases (the others are counted by `pinned_stats`).
+pub const PINNED_TEXT: &str = include_str!("../data/pinned.txt");
+
+pub fn pinned_programs() -> Vec<(String, String)> {
+    let mut v: Vec<(String, String)> = Vec::new();
+    for l in PINNED_TEXT.lines() {
+        if let Some(n) = l.strip_prefix("%%%% ") {
+            v.push((n.to_string(), String::new()));
+        } else if let Some(last) = v.last_mut() {
+            last.1.push_str(l);
+            last.1.push('\n');
+        }
+    }
+    v
+}
+
+pub fn f0_pinned() -> Vec<SemCase> {
+    let mut v = Vec::new();
+    for (_name, src) in pinned_programs() {
+        if src.contains('#') {
+            continue; // preprocessor lines: not in the harness grammar (covered by C07/C08)
+        }
+        let prog = match std::panic::catch_unwind(|| crate::cparse::parse_program(&src)) {
+            Ok(Ok(p)) => p,
+            _ => continue,
+        };
+        if !prog.funcs.iter().any(|f| f.name == "main") {
+            continue;
+        }
+        let inputs = crate::sem::cap_inputs(crate::sem::derive_inputs(&prog, false), 400);
+        let mut tags = crate::gen::program_tags(&prog);
+        tags.push("pinned");
+        v.push(SemCase { family: "F0.pinned".to_string(), prog, inputs, extra_opts: vec![], logged: vec![], tags });
+    }
+    v
+}
+
+/// members of F0.pinned the reference interpreter can judge (no inline assembly, no explicit accesses)
+pub fn f0_pinned_ref() -> Vec<SemCase> {
+    f0_pinned().into_iter().filter(|c| { let s = c.source(); !s.contains("asm(") && !s.contains("load(") && !s.contains("store(") && !s.contains("strobe(") && !s.contains("csleep(") && !s.contains("sizeof") }).collect()
+}
+
+/// F2.elseflags — what the generator believes the flags describe at the `else` label (and after the
+/// construct) of a compound, possibly negated condition: the label is reached from the test of every
+/// operand, so a test of one operand placed first in the else branch must load it again.
+pub const ELSE_K: [&str; 12] = ["!(a || b)", "!(a && b)", "a || b", "a && b", "!(!a || b)", "!(a || b || c)", "!(a && (b || c))", "!a && !b", "!(a == 1 || b == 2)", "!(a == b && b)", "!(a || !b)", "!(X || b)"];
+pub const ELSE_T: [&str; 8] = ["b", "a", "!b", "c", "b == 0", "b == 2", "a == 1", "X"];
+pub const ELSE_TEMPLATES: [&str; 4] = [
+    "if ({K}) { c = 2; } else { if ({T}) r = 1; else r = 2; }",
+    "if ({K}) { if ({T}) r = 1; else r = 2; } else { c = 2; }",
+    "while ({K}) { c = 2; a = 1; b = 1; X = 1; } if ({T}) r = 1; else r = 2;",
+    "r = ({K}) ? 4 : (({T}) ? 1 : 2);",
+];
+
+pub fn f2_elseflags() -> Vec<SemCase> {
+    let small: Vec<(&str, &[i32])> = vec![("a", &[0, 1, 2, 0xff]), ("b", &[0, 1, 2, 0x80]), ("c", &[0, 1]), ("r", &[0]), ("X", &[0, 1])];
+    let mut v = Vec::new();
+    for d in [D0_TEXT, D0S_TEXT] {
+        for t in ELSE_TEMPLATES {
+            for k in ELSE_K {
+                for c in ELSE_T {
+                    let body = t.replace("{K}", k).replace("{T}", c);
+                    let src = format!("{}void main()\n{{\n{}\n}}\n", d, body);
+                    v.push(case_from_text("F2.elseflags", &src, &small, vec!["elseflags"], 300));
+                }
+            }
+        }
+    }
+    v
+}
